@@ -54,8 +54,34 @@ func (x *Exec) initPackage(pkg *ssa.Package, st *State) {
 	}
 }
 
+func (x *Exec) notePoison(pkg *ssa.Package, why string) {
+	msg := "the initialiser of package " + pkg.Pkg.Path() + " is outside the verifier's subset (" + why + "): its variables are arbitrary in this obligation"
+	for _, b := range x.bounded {
+		if b == msg {
+			return
+		}
+	}
+	x.bounded = append(x.bounded, msg)
+}
+
 func (ld *Loaded) globalObj(x *Exec, g *ssa.Global, st *State) *Object {
 	if o, ok := x.globals[g]; ok {
+		if why, bad := x.poisoned[g.Pkg]; bad {
+			x.notePoison(g.Pkg, why)
+		}
+		return o
+	}
+	if why, bad := x.poisoned[g.Pkg]; bad {
+		// its initialiser is outside the subset: arbitrary value, and this run
+		// can no longer prove anything
+		if x.globals == nil {
+			x.globals = map[*ssa.Global]*Object{}
+		}
+		et := g.Type().Underlying().(*types.Pointer).Elem()
+		o := x.newObj("global:"+g.String(), et)
+		x.globals[g] = o
+		st.h[o] = x.symV(et, "global_"+g.Name(), st.h)
+		x.notePoison(g.Pkg, why)
 		return o
 	}
 	if x.inInit {
